@@ -42,6 +42,7 @@ should_log_ct = dict(
     structs=[LB_STRUCT], prelude=LB_PRELUDE + 'LogLevel log_statement_level;   /* template parameter, symbolic */\n', enforce='LB_should_log_statement_T', replace=[],
     funcs=[get_level, dict(src=dict(header=BH, cls='LoggerBase', name='should_log_statement', nth=0, expect=2), struct='LB', src_params=[],
                            cfun='LB_should_log_statement_T', sig='bool LB_should_log_statement_T(LB* self)', member_fields=['log_level'], cls_c='LB', siblings=['get_log_level'],
+                           constexpr=lambda c: None, pre_rules=[(r'LogLevel::(\w+)', r'LL_\1', '?')],   # an `if constexpr` on the (symbolic) template parameter stays a symbolic `if`: one proof for every static level
                            contract=r'''
 __CPROVER_requires(__CPROVER_is_fresh(self, sizeof(*self)) && self->log_level <= LL_Dynamic && log_statement_level <= LL_Dynamic)
 __CPROVER_assigns()
